@@ -268,11 +268,80 @@ def isDirectory (fs : Fs) (p : Bytes) : Bool :=
   | .found _ .dir => true
   | _ => false
 
-/-- mirrors `Assets::readFile`: `open(p, O_RDONLY | <flags from the source>)` then `read` to EOF.
+/-! ### the read loop of `readFile` (assets.hpp: `for (;;) { n = ::read(fd, buf, N); … }`) -/
+
+/-- what ONE call of `::read(fd, buf.data(), buf.size())` returns -/
+inductive ReadEv where
+  /-- `n > 0`: these bytes (a full buffer or a SHORT read) -/
+  | data (b : Bytes)
+  /-- `n == 0` -/
+  | eof
+  /-- `n < 0` with `errno ==` the errno the loop tests for (`Gen.readRetryErrno`, EINTR) -/
+  | eintr
+  /-- `n < 0` with any other errno -/
+  | err
+  deriving DecidableEq, Repr
+
+/-- the three things a branch of the loop can do; read off the source text by the translator -/
+inductive LoopAct where
+  | brk | cont | fail
+  deriving DecidableEq, Repr
+
+def loopAct (s : String) : LoopAct :=
+  if s = "break" then .brk else if s = "continue" then .cont else .fail
+
+/-- mirrors the `for (;;)` loop of `Assets::readFile`; `acc` is `data`.  What is done with the bytes of one read
+(`data.append` / `data.assign`), at EOF, at the retry errno and at other errors is what the SOURCE says (`Gen.Assets.read*`).
+A script of answers that ends before the loop does is not a run of the loop (`none`). -/
+def readLoop (acc : Bytes) : List ReadEv → Option Bytes
+  | [] => none
+  | ev :: rest =>
+    let act (a : String) (acc : Bytes) : Option Bytes :=
+      match loopAct a with
+      | .brk => some acc
+      | .cont => readLoop acc rest
+      | .fail => none
+    match ev with
+    | .data b => readLoop (if Gen.Assets.readAccumulate = "append" then acc ++ b else b) rest
+    | .eof => act Gen.Assets.readAtEof acc
+    | .eintr => act Gen.Assets.readAtRetryErrno acc
+    | .err => act Gen.Assets.readAtError acc
+
+/-- `d` cut into pieces of `n` bytes (fuel = `d.length` suffices when `n > 0`) -/
+def chunksOf (n : Nat) : Nat → Bytes → List Bytes
+  | 0, _ => []
+  | f + 1, d => if d.isEmpty then [] else d.take n :: chunksOf n f (d.drop n)
+
+/-- what the kernel answers for a regular file holding `d` that nobody touches, read with a buffer of `n` bytes:
+full buffers, a last partial one, then 0 -/
+def kernelReads (n : Nat) (d : Bytes) : List ReadEv := (chunksOf n d.length d).map .data ++ [.eof]
+
+/-- mirrors `Assets::readFile`: `open(p, O_RDONLY | <flags from the source>)` then the read loop with the source's buffer size.
 A directory opens but `read` fails (EISDIR); a link in last position is ELOOP under `O_NOFOLLOW`. -/
 def readFile (fs : Fs) (p : Bytes) : Option Bytes :=
   match kwalk fs (!Gen.Assets.openNoFollow) p with
-  | .ok (_, .file d) => some d
+  | .ok (_, .file d) => readLoop [] (kernelReads Gen.Assets.readBufSize d)
+  | _ => none
+
+/-- one scripted answer of `read` (op `readscript` of the harness): fail with `EINTR`, fail with another errno, or hand out at
+most `k` bytes -/
+inductive ReadCmd where
+  | eintr | err | atMost (k : Nat)
+  deriving DecidableEq, Repr
+
+/-- the kernel's answers for a file holding `d` under a script (after the script: full buffers) -/
+def scriptedReads (n : Nat) : List ReadCmd → Bytes → List ReadEv
+  | [], d => kernelReads n d
+  | .eintr :: s, d => .eintr :: scriptedReads n s d
+  | .err :: s, d => .err :: scriptedReads n s d
+  | .atMost k :: s, d =>
+    if d.isEmpty then .eof :: scriptedReads n s d
+    else .data (d.take (min (max k 1) n)) :: scriptedReads n s (d.drop (min (max k 1) n))
+
+/-- `readFile` with the kernel's answers scripted -/
+def readFileScripted (fs : Fs) (p : Bytes) (script : List ReadCmd) : Option Bytes :=
+  match kwalk fs (!Gen.Assets.openNoFollow) p with
+  | .ok (_, .file d) => readLoop [] (scriptedReads Gen.Assets.readBufSize script d)
   | _ => none
 
 /-! ## 4. The lookups -/
